@@ -285,23 +285,33 @@ impl Reader {
 			let (crc, length, type_byte) = self.parse_header();
 			self.cur_rec_type = RecordType::from_u8(type_byte)?;
 
-			// If the type is Empty (0), it's a padded block.
-			// Discard the rest of the buffer and read next block.
+			// A header of type Empty (0) where a whole header fits. The writer never
+			// produces one: it pads a block with zeros only when fewer than
+			// HEADER_SIZE bytes are left, and those are skipped above. Zeros here are
+			// either the tail of a file that was extended without its data reaching
+			// the disk - then nothing but zeros follows up to the end of the file,
+			// and the log ends here - or a range that was lost in the middle of the
+			// log. Skipping such a range as padding would silently drop the records
+			// in it and glue the fragments around it into one record.
 			if self.cur_rec_type == RecordType::Empty {
-				// Verify remaining bytes are zeros
-				let remaining = self.buffer_remaining();
-				if remaining > 0 {
+				loop {
+					let remaining = self.buffer_remaining();
 					let zeros = &self.buffer[self.buffer_offset..self.buffer_offset + remaining];
-					if !zeros.iter().all(|&c| c == 0) {
+					if let Some(first) = zeros.iter().position(|&c| c != 0) {
+						self.buffer_offset += first;
 						return Err(Error::IO(IOError::new(
 							io::ErrorKind::Other,
-							"non-zero byte in padding area",
+							"zeroed range inside the log (records lost)",
+						)));
+					}
+					self.buffer_offset = self.buffer.len();
+					if !self.read_more()? {
+						return Err(Error::IO(IOError::new(
+							io::ErrorKind::UnexpectedEof,
+							"reached end of file",
 						)));
 					}
 				}
-				// Discard rest of buffer and continue (read_more will be called next iteration)
-				self.buffer_offset = self.buffer.len();
-				continue;
 			}
 
 			// Handle SetCompressionType metadata record
